@@ -272,6 +272,29 @@ func (g *c05Gen) mutants(src string) []c05Mutant {
 			{"func np_" + tag, "    print 1", "end", "func ng_" + tag + " a:any", "    print a", "end", "ng_" + tag + " (np_" + tag + ")"},
 			{"func np_" + tag, "    print 1", "end", "print [(np_" + tag + ")]"}}[rng.Intn(4)]
 	})
+	// type mismatch at every operand position of the statement forms that take typed operands
+	add("type-mismatch", anywhere, func() []string {
+		v := "tr_" + tag
+		return [][]string{
+			{"for " + v + " := range 0 6 \"2\"", "    print " + v, "end"}, {"for " + v + " := range 0 6 true", "    print " + v, "end"},
+			{"for " + v + " := range 0 6 [1]", "    print " + v, "end"}, {"for " + v + " := range 0 \"6\"", "    print " + v, "end"},
+			{"for " + v + " := range \"0\" 6", "    print " + v, "end"}, {"for " + v + " := range true", "    print " + v, "end"},
+			{"for " + v + " := range 0 \"6\" 2", "    print " + v, "end"}, {"for " + v + " := range {a:1} 2", "    print " + v, "end"},
+			{"for range 1 2 \"3\"", "    print 1", "end"}, {"while 1", "    break", "end"}, {"while \"true\"", "    break", "end"},
+			{"if true", "    print 1", "else if 0", "    print 2", "end"}, {"print [1 2][\"a\"]"}, {"print {a:1}[0]"}, {"print \"abc\"[\"a\"]"},
+			{"print [1 2][true:]"}, {"print [1 2][:\"1\"]"}, {"print !1"}, {"print -true"}, {"print (1 < \"a\")"}, {"print (true and 1)"},
+			{"print (1 == \"1\")"}, {"print [1] + 1"}, {"print [1] * \"2\""}, {"print \"a\" * 2"}, {"print {a:1}.a.b"}, {"print 1.(num)"},
+		}[rng.Intn(27)]
+	})
+	add("type-mismatch", top, func() []string {
+		return [][]string{
+			{"func tf_" + tag + ":num", "    return \"s\"", "end", "print (tf_" + tag + ")"},
+			{"func tf_" + tag + " a:num", "    print a", "end", "tf_" + tag + " \"s\""},
+			{"func tf_" + tag + " a:[]num", "    print a", "end", "tf_" + tag + " [\"s\"]"},
+			{"func tf_" + tag + " a:num...", "    print a", "end", "tf_" + tag + " 1 \"s\" 3"},
+			{"func tf_" + tag + ":[]num", "    return [1 \"a\"]", "end", "print (tf_" + tag + ")"},
+		}[rng.Intn(5)]
+	})
 	add("wrong-argument-count", anywhere, func() []string {
 		return [][]string{{"for wa_" + tag + " := range 1 2 3 4", "    print wa_" + tag, "end"}, {"for range", "    print 1", "end"}}[rng.Intn(2)]
 	})
